@@ -255,6 +255,8 @@ def build(g, pre, history):
     if pre:
         scfg.join_returns()
         scfg.restructure_loop()
+    if pre == 2:
+        scfg.restructure_branch()      # fully restructured: regions whose exiting "block" is itself a region
     for op in history:
         apply_op(scfg, op)
     return scfg
@@ -358,6 +360,8 @@ def run(tier: str, seed: int):
             for pre in (False, True):
                 units.append((g, pre, depth, maxk))
                 # the same graph under other names / insertion orders (depth 1): the primitives sort predecessors and successors
+                if pre and 3 <= n <= 5:
+                    units.append((g, 2, 1, maxk))
                 if 3 <= n <= 4:
                     for lab in labelings(n, "few+ns" if n == 3 else "few"):
                         units.append((g, pre, 1, maxk, lab))
